@@ -2,6 +2,7 @@ package main
 
 // C10 stress: concurrent publishers and (un)subscribers on the real Publisher with monitors that state the
 // property itself.  Case: `stress: pubs=P stable=S churn=C n=N handler=0|1 map=D seed=X`
+//   * nil=1 adds zero-value Subscriptions (OnNext nil) around the stable ones; they must not disturb anybody;
 //   * P publisher goroutines each Publish N distinct values on the origin publisher;
 //   * the subscriptions live on the publisher derived by D Map(x+1) steps (D=0: the origin itself);
 //   * S stable subscriptions are registered before the start and never removed: each must see every value
@@ -101,6 +102,11 @@ func c10Stress(body string) string {
 		return j, k, v >= 0 && j < P && k < N
 	}
 
+	// nil=1: zero-value Subscriptions (OnNext nil) sit before, between and after the stable ones
+	withNil := pm["nil"] == 1
+	if withNil {
+		target.Subscribe(fpgo.Subscription[int]{})
+	}
 	// stable subscriptions
 	type stable struct {
 		mu    sync.Mutex
@@ -133,6 +139,9 @@ func c10Stress(body string) string {
 			st.count++
 			st.mu.Unlock()
 		}})
+		if withNil {
+			target.Subscribe(fpgo.Subscription[int]{})
+		}
 	}
 
 	var stop atomic.Bool
